@@ -2,36 +2,33 @@
 C18 — map iterators stay valid while entries are removed or added under them.  Hashtable part
 (lib/hashtable.c as it is in the repository, with the repairs D14 and D15).
 
-FULL STATEMENTS (NOT PROVED YET — kept at full strength; the differential stream of checks/C18.py
-and the monitor `IterMon` of Model/MapSpec.lean evaluate exactly these on sampled histories):
-
-  theorem ht_iter_memory_safe (size : Nat) (ops : List Op) :
-      ∀ o ∈ (run size ops).2, o.res ≠ .uaf ∧ o.res ≠ .diverge
-  theorem ht_iter_complete / ht_iter_exactly_once / ht_iter_never_invented (size) (ops) :
-      let m := IterMon.run .ht ops (run size ops).2
-      m.flags.incomplete = false ∧ m.flags.twice = false ∧ m.flags.invented = false ∧ m.flags.stale = false
-  theorem ht_after_iters_dict (size) (ops₁ ops₂) (h₁ : (run size ops₁).1.iters = [])
-      (h₂ : ∀ op ∈ ops₂, op.isIter = false) :
-      results .ht ((run size ops₁).1.runFrom ops₂) = results .ht ((Dict.run .ht ops₁).1.runFrom ops₂)
-
-What is proved below (all for EVERY well-formed table state `WF`, with any number of other open
-iterators and any removed-but-referenced nodes still linked) are the local facts those theorems
-are made of:
+PROVED for ALL histories (any interleaving of iterator create/next/free with put/rm/get and every
+other operation of the harness language, any number of iterators; model `run size ops`):
+* `ht_iter_memory_safe`: no step dereferences a freed node (outcome `uaf`), no loop diverges;
+  `ht_inv_all_histories`: the invariant `Inv` — in particular `refcount = [not removed] + number
+  of iterators parked on the node`, every iterator's node linked in the bucket it records
+  (`ht_iter_nodes_linked`);
+* `ht_after_iters_dict`: once no iterator is open the map behaves, on every continuation
+  (results and notification trace), like the dictionary that executed the same history;
+  `ht_dict_during_iters`: with iterators open, every result except `iter_next`'s is the dictionary's;
+* `ht_iter_never_invented`: what an iterator returns is an entry of the dictionary at that moment.
+STATED, NOT PROVED at history level (evaluated on every sampled history by the python oracle and
+the Lean monitor `IterMon`): `ht_iter_complete` (a key present from iter_new until the end is
+returned) and `ht_iter_exactly_once` (… exactly once when nothing was inserted meanwhile):
+  let m := IterMon.run .ht ops (run size ops).2;  m.flags.incomplete = false ∧ m.flags.twice = false
+Their per-step content IS proved, for every state satisfying the invariant:
 * `ht_iter_start_partial`: a new iterator has the whole table ahead of it;
 * `ht_iter_step_partial`: the node `hashtable_iter_next` moves to is linked, lies in the bucket the
-  iterator records, is not removed and referenced (never invented, never freed), is not the node
-  the iterator was parked on (never twice), every node skipped on the way is ineligible (removed —
-  nothing present is skipped), and what is ahead of the new position is exactly what followed the
-  node in what was ahead of the old one;
+  iterator records, is not removed and referenced, is not the node the iterator was parked on,
+  every node skipped on the way is ineligible (removed — nothing present is skipped), and what is
+  ahead of the new position is exactly what followed the node in what was ahead of the old one;
 * `ht_iter_end_partial`: the end is reported only when nothing eligible is ahead;
-* `ht_foreach_memory_safe` / `ht_foreach_under_iterators`: a traversal by `qb_map_foreach` run in
-  such a state (complete or abandoned) never dereferences a freed node, does not run out of fuel,
-  and leaves the table — all other iterators' positions and references included — unchanged.
-Missing for the full statements: the reference-count equation `refcount = [not removed] + number
-of iterators parked on the node` as an invariant of every operation (from which: a node is freed
-only when no iterator is parked on it), and the history-level bookkeeping of `IterMon`.
+* `ht_foreach_memory_safe` / `ht_foreach_under_iterators`: `qb_map_foreach` leaves the table — all
+  other iterators' positions and references included — unchanged.
+Missing for complete/exactly_once: the history-level bookkeeping (a node present throughout is
+never unlinked and stays ahead of or behind the iterator; `put` appends at a bucket's tail).
 -/
-import QbVerif.Lemmas.HtStepAll
+import QbVerif.Lemmas.HtSimRun
 
 namespace QbVerif.Hashtable
 open QbVerif.Map QbVerif.Gen
@@ -63,6 +60,70 @@ theorem ht_iter_nodes_linked (size : Nat) (ops : List Op) :
   obtain ⟨n, hn, hnid⟩ := h.itNode p hp id hid
   rw [← hnid, findNode_eq h.idsNodup (mem_flat_of_bucket hn)]
   rfl
+
+/-- C18, last clause: once the iterators are gone (after ANY history `ops₁`: any interleaving of
+    iterator create/next/free with put/rm/get/…, any number of iterators) the map again behaves
+    exactly like a dictionary holding the surviving entries — namely like the dictionary that
+    executed `ops₁` — on every continuation in the C17 language: results and notification trace -/
+theorem ht_after_iters_dict (size : Nat) (ops₁ ops₂ : List Op) (h₁ : (run size ops₁).1.iters = [])
+    (h₂ : ∀ op ∈ ops₂, op.isIter = false) :
+    results .ht ((run size ops₁).1.runFrom ops₂) = results .ht ((Dict.run .ht ops₁).1.runFrom ops₂) ∧
+    trace .ht ((run size ops₁).1.runFrom ops₂) = trace .ht ((Dict.run .ht ops₁).1.runFrom ops₂) := by
+  obtain ⟨h, s⟩ := sim_run ops₁ (create_inv size) (sim_create size)
+  exact sim_run_c17 ops₂ h s h₁ h₂
+
+/-- … and also WHILE iterators are open: in every history every result except those of
+    `iter_next` (get, rm, put, count, traversals, notifier registration, destroy refused/accepted,
+    iterator create/free accepted/refused) is the dictionary's -/
+theorem ht_dict_during_iters (size : Nat) (ops : List Op) :
+    maskNext .ht ops (run size ops).2 = maskNext .ht ops (Dict.run .ht ops).2 :=
+  sim_run_masked ops (create_inv size) (sim_create size)
+
+/-- never invented, never stale: whatever an iterator returns, after any history, is an entry of
+    the dictionary at that moment (so the key has been put and not removed since) -/
+theorem ht_iter_never_invented (size : Nat) (ops : List Op) (i : Nat) (k : Key) (v : Val)
+    (hr : ((run size ops).1.step (.iterNext i)).2.res = .item (some (k, v))) :
+    (findEntry (Dict.run .ht ops).1.entries k).map (·.val) = some v := by
+  have hs := sim_run ops (create_inv size) (sim_create size)
+  have h : Inv (run size ops).1 := hs.1
+  have s : Sim (run size ops).1 (Dict.run .ht ops).1 := hs.2
+  rw [step_eq h] at hr
+  simp only at hr
+  cases hl : (run size ops).1.iters.lookup (i + 1) with
+  | none => rw [iterNext_none hl] at hr; cases hr
+  | some it =>
+    obtain ⟨dec, hd, hdm⟩ := h.parkedNode hl
+    rw [iterNext_eq h hl hd hdm] at hr
+    unfold nextResult at hr
+    cases hs : scanBuckets (run size ops).1.eligible it.bucket ((run size ops).1.iterLists it) with
+    | none => rw [hs] at hr; cases hr
+    | some r =>
+      obtain ⟨b', n⟩ := r
+      rw [hs] at hr
+      simp only [Res.item.injEq, Option.some.injEq, Prod.mk.injEq] at hr
+      obtain ⟨hn, hen, _, _, _⟩ := iterLists_found h.idsNodup h.inBucket (by
+        intro p hp
+        cases dec with
+        | none => rw [hd] at hp; cases hp
+        | some np => rw [hd] at hp; cases hp; exact ⟨np, hdm np rfl, rfl⟩) hs
+      have hnl : n ∈ live (run size ops).1 := by
+        refine List.mem_filter.2 ⟨mem_flat_of_bucket hn, ?_⟩
+        unfold HT.eligible at hen
+        simp only [h.fix14, Bool.not_true, Bool.false_or, Bool.and_eq_true] at hen
+        exact hen.2
+      have hlk : (run size ops).1.lookup k = some n := by
+        rw [h.lookup_live]
+        cases hf : (live (run size ops).1).find? (fun x => x.key == k) with
+        | none =>
+          have := List.find?_eq_none.1 hf n hnl
+          simp [hr.1] at this
+        | some m =>
+          have hm := List.mem_of_find?_eq_some hf
+          have hk := List.find?_some hf
+          simp only [beq_iff_eq] at hk
+          rw [live_unique h hm hnl (hk.trans hr.1.symm)]
+      rw [s.find h k, hlk]
+      simp [absNode, hr.2]
 
 theorem ht_iter_start_partial (t : HT) : remOf t ⟨none, 0⟩ = t.flat := remOf_start t
 
